@@ -154,7 +154,18 @@ func init() {
 					return out
 				}
 				stage := []string{"production", "production", "staging", "staging", "retired"}[g.R.Intn(5)]
-				prev := J{"stage": stage, "ts": S(w.now), "defs": mk(prevDefs), "va": []any{}, "aggs": []any{}}
+				// validity starts: for some defined channels, and for channels that are NOT defined (kept from the
+				// predecessor's retirement report until the successor defines them)
+				va := []any{}
+				for id := 1; id <= 12; id++ {
+					if _, ok := prevDefs[id]; ok && g.R.Intn(2) == 0 {
+						va = append(va, J{"id": S(id), "va": S(w.now - uint64(g.R.Intn(1_000_000_000)))})
+					}
+				}
+				for k := g.R.Intn(3); k > 0; k-- {
+					va = append(va, J{"id": S(60 + k), "va": S(w.now - 1)})
+				}
+				prev := J{"stage": stage, "ts": S(w.now), "defs": mk(prevDefs), "va": va, "aggs": []any{}}
 				// the data source serves most requested streams, none sometimes, and knows streams nobody asked for
 				vals := []any{}
 				seen := map[int]bool{}
@@ -244,6 +255,17 @@ func init() {
 					viol = append(viol, Violation{Sig: "C02/honest-timestamp-not-the-clock", Desc: "the observation timestamp of a correct node is not its clock reading taken during the call", Op: op, Res: res})
 				}
 			case "C04":
+				// a validity start inherited from the predecessor must survive until the successor defines the
+				// channel: correct nodes never vote to remove an id that the previous outcome does not define
+				defined := map[string]bool{}
+				for _, e := range jArr(jObj(op["prev"])["defs"]) {
+					defined[jBig(jget(e, "id")).String()] = true
+				}
+				for _, id := range jArr(obs["removes"]) {
+					if !defined[jBig(id).String()] {
+						viol = append(viol, Violation{Sig: "C04/remove-vote-for-undefined-channel", Desc: "a correct node votes to remove channel " + jBig(id).String() + ", which the previous outcome does not define (more than f such votes delete the validity start inherited from the predecessor)", Op: op, Res: res})
+					}
+				}
 				if jStr(obs["attested"]) != "" && !(jBool(cfg["hasPred"]) && stage == "staging") {
 					viol = append(viol, Violation{Sig: "C04/attestation-outside-staging", Desc: "a correct node attached a predecessor attestation although it has no predecessor or is not staging", Op: op, Res: res})
 				}
